@@ -114,6 +114,10 @@ def _motifs(rng, k):
 
 def _config(rng):
     k = rng.randint(1, 10) if rng.random() < 0.85 else rng.randint(11, 20)
+    if rng.random() < 0.02:
+        k = rng.choice([127, 128, 129, 160, 200, 255, 256, 300])     # windows whose G+C count does not fit a signed / unsigned byte
+        return dict(k=k, run=rng.choice([None, None, 3, 8]), gc=rng.choice([["1/4", "3/4"], ["0", "1"], ["1/2", "3/4"], ["1/4", "1"], _gc_range(rng, k)]),
+                    motifs=rng.choice([None, None, [gens.random_dna(rng, rng.randint(4, 9))]]))
     run = rng.choice([None, None] + list(range(0, k + 1)))
     return dict(k=k, run=run, gc=_gc_range(rng, k), motifs=_motifs(rng, k))
 
@@ -165,7 +169,7 @@ def _strings(rng, cfg):
     base = _exact_gc(rng, rng.choice([k, 2 * k]), k // 2)
     for _ in range(2):
         p = rng.randrange(len(base))
-        out.append(("foreign", base[:p] + rng.choice(["N", "a", "t", "U", "-", " ", "É", "\n", "\r", "\t"]) + base[p + 1:]))
+        out.append(("foreign", base[:p] + rng.choice(["N", "a", "t", "U", "-", " ", "É", "\n", "\r", "\t", "\x00", "\ud800", "\udfff", "\U0001f9ec", "\u0391"]) + base[p + 1:]))
     for ws in ("\n", "\r\n", " ", "\t", "\x00"):
         if rng.random() < 0.5:
             out.append(("foreign-tail", base + ws))            # an otherwise acceptable strand followed by white space
@@ -264,6 +268,8 @@ def check_valid(ctx, case):
         return
     f = out.value
     configured = cfg["run"] is not None or cfg["gc"] is not None or cfg["motifs"] is not None
+    if k >= 127:
+        ctx.cls("window length >= 127")
     for only_last in (False, True):
         want, why = ref_valid(cfg, s, only_last)
         got = _lib(ctx, f, s, only_last, what)
@@ -391,7 +397,7 @@ def floors(agg, tier):
             need = 500 if not (ol and why == "gc-short") else 100
             if c.get(name, 0) < need:
                 out.append("%s decided %d < %d" % (name, c.get(name, 0), need))
-    for name, need in (("settings of one filter object edited in place between calls", 500), ("growing strand judged by one filter object", 500), ("string|long", 100), ("string|foreign-tail", 500),
+    for name, need in (("settings of one filter object edited in place between calls", 500), ("growing strand judged by one filter object", 500), ("string|long", 100), ("string|foreign-tail", 500), ("window length >= 127", 300),
                        ("gc-count within 1 of lo bound", 100), ("gc-count within 1 of hi bound", 100),
                        ("metamorphic|revcomp", 1000), ("metamorphic|window-conjunction", 1000)):
         if c.get(name, 0) < need:
